@@ -72,7 +72,9 @@ package reg
 
 // ---- C05: BlobPut dispatcher ----
 // the single-request upload is only used with a complete, valid descriptor (the registry then
-// verifies digest and length of the body it receives); the chunked fall-back after a failed
+// verifies digest and length of the body it receives; BlobPut reports the caller's descriptor
+// unchanged on that path, so a size of 0 - "unknown" - may only go there for the empty blob, whose
+// request has no body at all); the chunked fall-back after a failed
 // single-request upload starts only after the caller's stream was rewound to offset 0.
 //@ callsite (*Reg).blobPutUploadFull(ctx, r, d, putURL, rdr)
 //@   prop C05
@@ -80,6 +82,14 @@ package reg
 //@   in ~/scheme/reg
 //@   infunc \)\.BlobPut$
 //@   requires only-with-valid-descriptor: caller.validDesc && d == old(caller.d) && rdr == old(caller.rdr)
+//@   requires size-and-digest-declared: (d.Size > 0 && $valid(d.Digest)) || (d.Size == 0 && d.Digest == zeroDig)
+// (the anonymous mount attempt reports the caller's descriptor as the result in the same way)
+//@ callsite (*Reg).blobMount(ctx, rTgt, d, rSrc)
+//@   prop C05
+//@   name blobMount/BlobPut
+//@   in ~/scheme/reg
+//@   infunc \)\.BlobPut$
+//@   requires size-and-digest-declared: (d.Size > 0 && $valid(d.Digest)) || (d.Size == 0 && d.Digest == zeroDig)
 //@ callsite (*Reg).blobPutUploadChunked(ctx, r, d, putURL, rdr)
 //@   prop C05
 //@   name blobPutUploadChunked/BlobPut
